@@ -146,5 +146,5 @@ def cases(draw):
 
 
 CLAUSES = [
-    Clause('roundtrip', check_case, kind='random', strategy=cases, budget={'quick': 1600, 'thorough': 20000}),
+    Clause('roundtrip', check_case, kind='random', strategy=cases, budget={'quick': 6000, 'thorough': 50000}),
 ]
